@@ -484,7 +484,7 @@ impl LangGen {
 
     fn int_expr(&mut self, cx: &[Var], depth: usize) -> String {
         let d = depth - 1;
-        match self.rng.below(23) {
+        match self.rng.below(24) {
             0 | 1 => format!("(+ {} {})", self.expr(Ty::Int, cx, d), self.expr(Ty::Int, cx, d)),
             2 => format!("(- {} {})", self.expr(Ty::Int, cx, d), self.expr(Ty::Int, cx, d)),
             3 => format!("(* {} {})", self.expr(Ty::Int, cx, 0), self.rng.range(-2, 3)),
@@ -605,6 +605,21 @@ impl LangGen {
                     _ => format!("(((lambda ({t}) (lambda (u) (cdr `(,u . ,{t})))) {init}) 0)", t = t, init = init),
                 }
             }
+            22 => {
+                // an object inserted by unquote is that object, not a copy: a mutation through the original is seen
+                // through the constructed list, and the other way round
+                self.tag("qq-unquoted-object-identity");
+                let p = self.fresh("p");
+                let q = self.fresh("q");
+                let v = self.expr(Ty::Int, cx, d.min(1));
+                match self.rng.below(5) {
+                    0 => format!("(let (({p} (list 1 2))) (let (({q} `(a ,{p} b))) (set-car! {p} {v}) (car (car (cdr {q})))))", p = p, q = q, v = v),
+                    1 => format!("(let (({p} (list 3 4))) (let (({q} `(0 . ,{p}))) (set-car! {p} {v}) (car (cdr {q}))))", p = p, q = q, v = v),
+                    2 => format!("(let (({q} ((lambda ({p}) `(,{p} ,{p})) (list 0)))) (set-car! (car {q}) {v}) (car (car (cdr {q}))))", p = p, q = q, v = v),
+                    3 => format!("(let (({p} (list 1))) (let (({q} `#(0 ,{p}))) (set-car! {p} {v}) (car (vector-ref {q} 1))))", p = p, q = q, v = v),
+                    _ => format!("(let (({p} (vector 1 2))) (let (({q} `(a (b ,{p})))) (vector-set! (car (cdr (car (cdr {q})))) 0 {v}) (vector-ref {p} 0)))", p = p, q = q, v = v),
+                }
+            }
             _ => self.leaf(Ty::Int, cx),
         }
     }
@@ -722,6 +737,19 @@ impl LangGen {
                 format!("(string->symbol (string-append \"s-\" (symbol->string {})))", self.expr(Ty::Sym, cx, d))
             }
             2 => format!("(car (list {} 1))", self.expr(Ty::Sym, cx, d)),
+            3 => {
+                // case compares in the sense of eqv?: a freshly built compound key selects no clause whose datum merely
+                // has the same structure; atoms of every kind do select theirs
+                self.tag("case-compound-key");
+                let i = self.expr(Ty::Int, cx, d.min(1));
+                match self.rng.below(5) {
+                    0 => format!("(case (list {i} 2) ((({i0} 2) (1 2)) 'hit) ((5) 'five) (else 'miss))", i = i, i0 = self.rng.range(0, 3)),
+                    1 => format!("(case (vector {i}) ((#(0) #(1) #(2)) 'hit) (else 'miss))", i = i),
+                    2 => format!("(case (cons 'a {i}) (((a . 0) (a . 1) (a . 2)) 'hit) (else 'miss))", i = i),
+                    3 => format!("(case (car (list (string->symbol \"a\") {i})) (((a)) 'list) ((\"a\" #\\a) 'other) ((b a) 'sym) (else 'miss))", i = i),
+                    _ => format!("(case (if (< {i} 1) #\\a 'a) ((#\\a) 'char) ((a) 'sym) ((\"a\") 'str) (else 'miss))", i = i),
+                }
+            }
             _ => self.leaf(Ty::Sym, cx),
         }
     }
